@@ -83,7 +83,11 @@ type Op struct {
 	Reuse bool `json:"reuse,omitempty"`
 	// Quiet (binrows): rows are counted, not recorded one by one (very long streams)
 	Quiet bool     `json:"quiet,omitempty"`
-	Err   *ErrSpec `json:"err,omitempty"`
+	// CancelIn (row, 1-based column): that column's value is handed over as a
+	// pgtype.TextValuer whose TextValue() cancels the session context - a time
+	// limit that runs out while that very value is being encoded
+	CancelIn int      `json:"cancel_in,omitempty"`
+	Err      *ErrSpec `json:"err,omitempty"`
 	OIDs  []uint32 `json:"oids,omitempty"`
 }
 
@@ -510,10 +514,21 @@ func CanonOfGo(x any) (pgwire.Value, bool) {
 // ---------------------------------------------------------------------------
 // interpreter
 
+// columns returns the handler's column description of a statement. Like the
+// table descriptions of a real handler (package-level values, see the
+// library's examples) it is ONE value per statement program, built before the
+// server starts and handed out to every connection that runs the statement.
 func (rt *Runtime) columns(cs []ColSpec) wire.Columns {
-	if cs == nil {
+	if len(cs) == 0 {
 		return nil
 	}
+	if out, ok := rt.colCache[&cs[0]]; ok {
+		return out
+	}
+	return buildColumns(cs)
+}
+
+func buildColumns(cs []ColSpec) wire.Columns {
 	out := make(wire.Columns, len(cs))
 	for i, c := range cs {
 		out[i] = wire.Column{Table: c.Table, Name: c.Name, Oid: oid.Oid(c.OID), Width: c.Width, AttrNo: c.Attr, TypeModifier: c.Mod}
@@ -545,6 +560,9 @@ func FallbackProgram() *Program {
 func (rt *Runtime) programFor(query string) *Program {
 	if p, ok := rt.C.Programs[ProgramKey(query)]; ok && p != nil {
 		return p
+	}
+	if rt.fallback != nil {
+		return rt.fallback
 	}
 	return FallbackProgram()
 }
@@ -677,6 +695,15 @@ func (rt *Runtime) runStmt(ctx context.Context, key string, idx int, sp *StmtPro
 			vals := make([]any, len(op.Row))
 			for i, v := range op.Row {
 				vals[i] = v.Go()
+			}
+			if op.CancelIn > 0 && op.CancelIn <= len(vals) {
+				if str, ok := vals[op.CancelIn-1].(string); ok {
+					vals[op.CancelIn-1] = cancellingText{s: str, fn: func() {
+						if c.cancelSession != nil {
+							c.cancelSession()
+						}
+					}}
+				}
 			}
 			if op.Reuse {
 				if len(reuseSlice) != len(vals) {
@@ -899,6 +926,17 @@ func (rt *Runtime) runStmt(ctx context.Context, key string, idx int, sp *StmtPro
 		}
 	}
 	return nil
+}
+
+// cancellingText is a text value whose encoding cancels the session context.
+type cancellingText struct {
+	s  string
+	fn func()
+}
+
+func (v cancellingText) TextValue() (pgtype.Text, error) {
+	v.fn()
+	return pgtype.Text{String: v.s, Valid: true}, nil
 }
 
 func canonRow(row []any, cols []ColSpec) string {
